@@ -23,6 +23,7 @@ import (
 	"github.com/notaryproject/notation-go/verifharness/lib"
 	"github.com/notaryproject/notation-go/verifier"
 	"github.com/notaryproject/notation-go/verifier/trustpolicy"
+	pf "github.com/notaryproject/notation-plugin-framework-go/plugin"
 	ocispec "github.com/opencontainers/image-spec/specs-go/v1"
 )
 
@@ -110,6 +111,9 @@ func main() {
 		for _, f := range formats {
 			for _, sc := range schemes {
 				s.raw[f+"|"+sc] = lib.MustCoreSign(lib.SignSpec{Format: f, Scheme: signature.SigningScheme(sc), Payload: payload, Signer: leaf, SigningTime: signTime})
+				// the same, demanding a verification plugin (which will own trusted-identity verification only)
+				s.raw[f+"|"+sc+"|plugin"] = lib.MustCoreSign(lib.SignSpec{Format: f, Scheme: signature.SigningScheme(sc), Payload: payload, Signer: leaf, SigningTime: signTime,
+					Ext: []signature.Attribute{{Key: lib.HdrPlugin, Critical: true, Value: "plug"}}})
 			}
 		}
 		sets = append(sets, s)
@@ -159,6 +163,12 @@ func main() {
 		c := cfgs[i]
 		set := sets[c.ChainLen-1]
 		sig := set.raw[c.Format+"|"+c.Scheme]
+		// every fourth case: the signature names a plugin that owns ONLY trusted-identity verification, so native
+		// revocation checking must be performed exactly as without a plugin
+		tiPlugin := i%4 == 1
+		if tiPlugin {
+			sig = set.raw[c.Format+"|"+c.Scheme+"|plugin"]
+		}
 		storeType := "ca"
 		if c.Scheme != "notary.x509" {
 			storeType = "signingAuthority"
@@ -170,7 +180,21 @@ func main() {
 		} else {
 			opts.RevocationCodeSigningValidator = rv
 		}
-		v, err := verifier.NewVerifierWithOptions(lib.NewMemTS().Put(storeType+":x", set.chain[len(set.chain)-1]), opts)
+		if tiPlugin {
+			opts.PluginManager = lib.ScriptedManager{P: &lib.ScriptedPlugin{Caps: []pf.Capability{pf.CapabilityTrustedIdentityVerifier}}}
+		}
+		var v notation.Verifier
+		var err error
+		mts := lib.NewMemTS().Put(storeType+":x", set.chain[len(set.chain)-1])
+		if (i/4)%3 == 2 {
+			// the deprecated constructor must select the same validator
+			o2 := opts
+			doc, pm := o2.OCITrustPolicy, o2.PluginManager
+			o2.OCITrustPolicy, o2.PluginManager = nil, nil
+			v, err = verifier.NewWithOptions(doc, mts, pm, o2)
+		} else {
+			v, err = verifier.NewVerifierWithOptions(mts, opts)
+		}
 		if err != nil {
 			panic(err)
 		}
